@@ -22,12 +22,15 @@ inductive TExpr where
   | src (id : Nat) (label : Option String) (ty : Term)   -- `Source`; `label` = name of a non-function operator
   | op (name : String) (ty : Term)                        -- `Operation`
   | app (f x : TExpr) (ty : Term)                         -- `Application`
+  /-- the same expression *object* wherever it occurs (a workflow resource consumed by several tools): `key` identifies the object -/
+  | shared (key : Nat) (e : TExpr)
   deriving Repr, Inhabited
 
 def TExpr.ty : TExpr → Term
   | .src _ _ t => t
   | .op _ t => t
   | .app _ _ t => t
+  | .shared _ e => e.ty
 
 def TExpr.isSource : TExpr → Bool
   | .src _ _ _ => true
@@ -37,6 +40,7 @@ def TExpr.setTy (t : Term) : TExpr → TExpr
   | .src i l _ => .src i l t
   | .op n _ => .op n t
   | .app f x _ => .app f x t
+  | .shared k e => .shared k (e.setTy t)
 
 structure XState where
   store : Store := {}
@@ -126,12 +130,17 @@ def fixExprCore (L : Lang) : Store → TExpr → Except Err (Store × TExpr)
         match fix L exprFuel σ2 t true with
         | .error e => .error e
         | .ok (σ3, t1) => .ok (σ3, .app f1 x1 t1)
+  | σ, .shared k e =>
+    match fixExprCore L σ e with
+    | .error err => .error err
+    | .ok (σ1, e1) => .ok (σ1, .shared k e1)
 
 /-- every node's type followed to its bindings in the given store -/
 def normExpr (σ : Store) : TExpr → TExpr
   | .src i l t => .src i l (normT σ t)
   | .op n t => .op n (normT σ t)
   | .app f x t => .app (normExpr σ f) (normExpr σ x) (normT σ t)
+  | .shared k e => .shared k (normExpr σ e)
 
 /-- `Expr.fix()`. Python normalises each node's type as it goes, but the normalised type still *shares* its
 unresolved variables with the rest of the tree, so a variable that a later `fix` step resolves is seen resolved
